@@ -15,6 +15,7 @@ from dliswriter import DLISFile as DLISFileCls
 
 THEOREMS = ['Dlis.C14.history_independent', 'Dlis.C14.cachedWrite_transparent', 'Dlis.C14.pyEq_eq',
             'Dlis.C14.evict_coherent', 'Dlis.C14.signed_zero_collides', 'Dlis.C14.types_never_collide',
+            'Dlis.C14.derived_dimension_history_independent', 'Dlis.C14.assigned_dimension_survives',
             'Dlis.C17.hc_restored']
 
 
@@ -372,6 +373,9 @@ def run(tier):
             elif s2 == 'ok' and d2 != d3:
                 chk.fail('rewrite:stale-derived-index-attribute', case, 'the second file differs from the one a fresh specification '
                                                                         'writes from the same rows')
+        # (f) the same at the level of the checks themselves, against the DimState model
+        from harness import defaults as _defaults
+        _defaults.sequence_stream(chk, model, bres, rng('C14', 'dimension-sequences'), 150 if tier == 'quick' else 1500)
     finally:
         shutil.rmtree(tmp, ignore_errors=True)
     return finish(chk, bres, THEOREMS,
